@@ -38,7 +38,7 @@ def evolve(rnd, g, ir, compatible_only):
     named = [n for _, _, n in pos if n["k"] in ("record", "enum", "fixed")]
     steps = ["reorder", "add_default", "drop_field", "rename_alias", "promote", "widen_union", "wrap_union", "enum_add", "enum_remove_default",
              "rename_type_alias", "change_ns", "field_alias_swap", "union_reorder", "hoist_def", "hoist_def", "rename_evolve_referenced",
-             "rename_evolve_referenced", "drop_named_field", "drop_named_field", "unwrap_union", "unwrap_union"]
+             "rename_evolve_referenced", "drop_named_field", "drop_named_field", "unwrap_union", "unwrap_union", "unwrap_union", "unwrap_union"]
     if not compatible_only:
         steps += ["add_nodefault", "demote", "enum_remove", "fixed_size", "rename_field", "narrow_union", "rename_type", "kind_change",
                   "unwrap_union", "unwrap_union"] * 1
